@@ -68,7 +68,6 @@ impl RemoteEntityAccessControl for AccessControlBuiltin {
     // This method differs from the other similar ones because of the possibility of
     // a relay only datareader
 
-    let grant = self.get_grant(&permissions_handle)?;
     let domain_rule = self.get_domain_rule(&permissions_handle)?;
 
     let requested_access_is_unprotected = domain_rule
@@ -80,6 +79,14 @@ impl RemoteEntityAccessControl for AccessControlBuiltin {
          }| *enable_read_access_control,
       )
       .is_some_and(bool::not);
+
+    // Access that the governance document leaves unprotected does not depend on the
+    // permissions document (which may have no currently valid grant for the participant).
+    if requested_access_is_unprotected {
+      return Ok((true, false));
+    }
+
+    let grant = self.get_grant(&permissions_handle)?;
 
     let participant_has_read_access = grant
       .check_action(
@@ -96,7 +103,7 @@ impl RemoteEntityAccessControl for AccessControlBuiltin {
     // or the MajorVersion of the local permissions_token differ from those in
     // the remote_permissions_token, the operation shall return FALSE."
 
-    let allow_to_fully_read = requested_access_is_unprotected || participant_has_read_access;
+    let allow_to_fully_read = participant_has_read_access;
 
     let relay_only = if allow_to_fully_read {
       // Participant allowed to fully read the topic, relay_only has no meaning
